@@ -311,3 +311,90 @@ def r_rootscan(prog, tier):
     obs.append(Ob('R-ROOTSCAN', f.fq, 'the root of a TIGER-XML sentence is the parentless node among all its nodes', ok, why,
                   construct='rootscan', line=f.node.lineno))
     return obs, {}
+
+
+# ------------------------------------------------------------------------------------ R-LEAFGUARD
+
+LEAF_SHORTCUTS = {'treeanalysis.gap_degree_node': 'a node without children has no gap',
+                  'treeanalysis.gap_type': 'a token has no gap type'}
+
+
+def _children_count_bound(prog, f, p, at):
+    """What do the facts at cfg node `at` say about the number of children of node parameter `p`?
+    ('le', k): at most k children;  None: nothing recognised."""
+    from ..core import facts_at
+    from ..linear import linear
+    cfg = f.cfg
+    lists = set(['trees.children(%s)' % p, '%s.children' % p, 'children(%s)' % p])
+    for nm in f.locals:
+        v = _unique_assign(f, nm)
+        if isinstance(v, ast.AST) and unparse(v) in lists:
+            lists.add(nm)
+    best = None
+    for (fa, _) in facts_at(cfg, at):
+        k = None
+        if fa[0] == 'opaque' and fa[2] is False and fa[1] in ('trees.has_children(%s)' % p, 'has_children(%s)' % p):
+            k = 0
+        elif fa[0] == 'truthy' and fa[2] is False and fa[1] in lists:
+            k = 0
+        elif fa[0] == 'cmp':
+            for L in lists:
+                LL = 'len(%s)' % L
+                if fa[1] == LL and fa[3].lstrip('-').isdigit():
+                    c = int(fa[3])
+                    if fa[2] == '==':
+                        k = c if k is None else min(k, c)
+                        if c == 1:
+                            return ('eq', 1)
+                    elif fa[2] == '<=':
+                        k = c
+                    elif fa[2] == '<':
+                        k = c - 1
+        if k is not None:
+            best = k if best is None else min(best, k)
+    return None if best is None else ('le', best)
+
+
+def r_leafguard(prog, tier):
+    """A recursive tree walker may return before recursing only for nodes without children; the two leaf shortcuts of
+    the gap functions likewise.  A guard that also covers unary nodes (at most one child / exactly one child) cuts the
+    walk short above every node that has a single child."""
+    obs = []
+    n = 0
+    for modname in ('trees', 'transform', 'treeanalysis', 'transitions', 'grammar'):
+        for f in sorted(prog.modules[modname].funcs.values(), key=lambda x: x.fq):
+            if not f.params or f.cls:
+                continue
+            p = f.params[0]
+            cfg = f.cfg
+            rec = [m for m in cfg.eval_nodes() for r_ in cfg.exprs(m.id) for x in ast.walk(r_)
+                   if isinstance(x, ast.Call) and prog.callee(x, f) == (f.module.name, f.qual)]
+            shortcut = f.fq in LEAF_SHORTCUTS
+            if not rec and not shortcut:
+                continue
+            rec_ids = frozenset(m.id for m in rec)
+            for r in [m for m in cfg.eval_nodes() if m.kind == 'stmt' and isinstance(m.ast, ast.Return)]:
+                # a return that can be reached without any recursive call, while other paths do recurse
+                if rec and not (r.id in cfg.reach(cfg.entry, avoid=rec_ids)):
+                    continue
+                if rec and any(r.id in cfg.reach(m) for m in rec_ids):
+                    continue        # also the way out after recursing: not an early return
+                if shortcut and not (isinstance(r.ast.value, ast.Constant)):
+                    continue
+                b = _children_count_bound(prog, f, p, r.id)
+                if b is None:
+                    continue
+                n += 1
+                if b == ('le', 0):
+                    ok, why = True, 'only for a node without children'
+                elif b == ('eq', 1) or (b[0] == 'le' and b[1] >= 1):
+                    ok = False
+                    why = 'the early return also covers nodes with %s: %s' % (
+                        'exactly one child' if b == ('eq', 1) else 'up to %d child(ren)' % b[1],
+                        'the walk stops above a unary node and never sees what is below it' if rec else
+                        'a unary node above a discontinuous child is treated like a token')
+                else:
+                    ok, why = None, 'guard on the number of children not recognised'
+                obs.append(Ob('R-LEAFGUARD', f.fq, 'early `%s` happens only for a node without children' % unparse(r.ast)[:50],
+                              ok, why, construct='leaf:' + unparse(r.ast)[:50], line=r.lineno))
+    return obs, {'guarded_early_returns': n}
